@@ -95,6 +95,14 @@ def mk(spec):
         ns = TaxonNamespace(labs)
         taxa = list(ns)
         env = Env(ns)
+    elif kind == "case":
+        # two taxa whose labels differ in case only: in the (default, case-insensitive) namespace a label names BOTH
+        labs = list(labs)
+        if n >= 3:
+            labs[2] = labs[1].lower()
+        ns = TaxonNamespace(labs)
+        taxa = list(ns)
+        env = Env(ns)
     else:  # "removed": bits differ from list positions
         ns = TaxonNamespace(["X0"] + labs[:1] + ["X1"] + labs[1:])
         env = Env(ns)
@@ -193,8 +201,12 @@ def menu(t, level, subset_level=None):
     for sub in subsets:
         for o in _opt(level, ["upd", "sup"]):
             add(dict(op="prune_taxa", s=sub, **o))
+        # (in a case-insensitive namespace a label also names its case variants: a request that would name every leaf, or keep none, is not made)
+        low = set(l.lower() for l in sub)
+        names_all = all(l.lower() in low for l in labels)
         for o in _opt(min(level, 1), ["upd", "sup"]):
-            add(dict(op="prune_taxa_with_labels", s=sub, **o))
+            if not names_all:
+                add(dict(op="prune_taxa_with_labels", s=sub, **o))
             add(dict(op="retain_taxa", s=sub, **o))
             add(dict(op="retain_taxa_with_labels", s=sub, **o))
         for o in _opt(level, ["upd", "sup", "rec"]):
@@ -392,10 +404,16 @@ def plan(t, env, d):
     elif op in ("prune_taxa", "prune_taxa_with_labels", "retain_taxa", "retain_taxa_with_labels", "filter_leaf_nodes"):
         sel = set(o["s"])
         taxa = [x for x in ns if x.label in sel]
-        if op.startswith("prune"):
-            P.removed = [x for x in order if not x._child_nodes and x.taxon is not None and x.taxon.label in sel]
+        if op.endswith("_with_labels") and not ns.is_case_sensitive:
+            # a label names every taxon whose label matches it under the namespace's case rule
+            low = set(l.lower() for l in sel)
+            named = lambda lab: lab.lower() in low
         else:
-            P.removed = [x for x in order if not x._child_nodes and x.taxon is not None and x.taxon.label not in sel]
+            named = lambda lab: lab in sel
+        if op.startswith("prune"):
+            P.removed = [x for x in order if not x._child_nodes and x.taxon is not None and named(x.taxon.label)]
+        else:
+            P.removed = [x for x in order if not x._child_nodes and x.taxon is not None and not named(x.taxon.label)]
         if op == "prune_taxa":
             P.call = lambda: t.prune_taxa(taxa, update_bipartitions=o["upd"], suppress_unifurcations=o["sup"])
         elif op == "prune_taxa_with_labels":
@@ -877,6 +895,7 @@ def t2(ctx):
         st2 = _starts(shapes, ["dyadic", "none"], R3)
         st1 = _starts(shapes, ["onemissing", "zeros", "leafmissing"], (None,)) + _starts(unif, ["dyadic", "none"], (None, True))
     st2 += _starts(list(shapes_upto(4, 2)), ["dyadic"], R3, extra=(dict(ns="removed"), dict(notaxon=1)))
+    st2 += _starts(list(shapes_upto(4, 3)), ["dyadic"], (None,), extra=(dict(ns="case"),))
     _run_scope(ctx, "depth1@full-menu", "every operation x every target node/edge/taxon subset x every option value, from every ordered shape with "
                "<=%d leaves x %s x 3 rooting states, and shapes <=4 leaves with a namespace with removed taxa / a taxon-less leaf; "
                "non-trivial = start tree with >=4 nodes" % (N1, "5 length patterns" if thorough else "{dyadic, none}"),
